@@ -2,6 +2,7 @@ package props
 
 import (
 	"bytes"
+	"crypto"
 	"fmt"
 	"io"
 	"math/big"
@@ -21,7 +22,7 @@ func init() { Register("C14", runC14) }
 
 func runC14(r *mon.Run) {
 	n := bigN
-	for _, c := range []string{"c14:Py-even,Ry-even", "c14:Py-even,Ry-odd", "c14:Py-odd,Ry-even", "c14:Py-odd,Ry-odd", "c14:aux=zero", "c14:aux=ones", "c14:aux=one-hot-byte", "c14:aux=only-word-0", "c14:aux=only-word-1", "c14:aux=only-word-2", "c14:aux=only-word-3", "c14:aux=one-word-zero", "c14:concurrent-sign", "c14:msglen=0", "c14:msglen!=32",
+	for _, c := range []string{"c14:Py-even,Ry-even", "c14:Py-even,Ry-odd", "c14:Py-odd,Ry-even", "c14:Py-odd,Ry-odd", "c14:aux=zero", "c14:aux=ones", "c14:aux=one-hot-byte", "c14:aux=only-word-0", "c14:aux=only-word-1", "c14:aux=only-word-2", "c14:aux=only-word-3", "c14:aux=one-word-zero", "c14:concurrent-sign", "c14:signer-opts-variety", "c14:msglen=0", "c14:msglen!=32",
 		"c14:reader:fail<32", "c14:reader:chunks", "c14:frompoint:odd-y", "c14:frompoint:even-y", "c14:frompoint:identity", "c14:frompoint:rep-nontrivial", "c14:fromECDSA"} {
 		r.Require(c)
 	}
@@ -143,6 +144,17 @@ func runC14(r *mon.Run) {
 			hp.Double(hp)
 			hs := sk.Scalar()
 			hs.Add(hs, hs)
+		}
+		// the opts argument of crypto.Signer carries no meaning for BIP-340 (the message is
+		// signed as is): every value gives the same signature
+		if i%4 == 1 {
+			for _, o := range []crypto.SignerOpts{crypto.Hash(0), crypto.SHA256, crypto.SHA512, crypto.SHA1, &secec.ECDSAOptions{}, &secec.ECDSAOptions{Hash: crypto.SHA384, Encoding: secec.EncodingCompact}} {
+				so, err := sk.Sign(&fixedReader{data: aux}, msg, o)
+				if err != nil || !bytes.Equal(so, want) {
+					w.Fail("c14/Sign:opts", fmt.Sprintf("Sign with opts %T %v over a %d-byte message = %x (err %v), BIP-340 Sign(d, aux, m) = %x", o, o, len(msg), so, err, want), det...)
+				}
+			}
+			w.Class("c14:signer-opts-variety")
 		}
 		sig, err := sk.Sign(rd, msg, nil)
 		if err != nil {
